@@ -844,6 +844,9 @@ type c15CaseB struct {
 	PackedFile    string    `json:"packedFile,omitempty"` // charts/<x>.tgz, already part of Files
 	PackedName    string    `json:"packedName,omitempty"`
 	PackedEntries []string  `json:"packedEntries,omitempty"`
+	// SecondOfTwo: the action object has already packaged another chart (as `helm package a b` does) when it gets to
+	// this one
+	SecondOfTwo bool `json:"secondOfTwo,omitempty"`
 }
 
 var (
@@ -859,6 +862,7 @@ var (
 
 func c15GenCaseB(t *rapid.T) *c15CaseB {
 	c := &c15CaseB{Name: rapid.SampledFrom([]string{"demo", "my-chart", "ünï"}).Draw(t, "name")}
+	c.SecondOfTwo = rapid.IntRange(0, 2).Draw(t, "secondOfTwo") == 0
 	api := rapid.SampledFrom([]string{"v2", "v2", "v1"}).Draw(t, "api")
 	add := func(n, d string) { c.Files = append(c.Files, c15F(n, []byte(d))) }
 	add("Chart.yaml", fmt.Sprintf("apiVersion: %s\nname: %s\nversion: %s\n", api, c.Name, rapid.SampledFrom([]string{"0.1.0", "1.2.3-rc.1"}).Draw(t, "ver")))
